@@ -172,6 +172,11 @@ func checkC06Again(t *testing.T, sc BatchSc) Verdict {
 		return checkC06(t, sc)
 	}
 	x, eff, br, fail := runBatchAgain(t, &sc)
+	if x != nil && br.Err != nil && br.Panic == "" && len(br.Events) == 0 {
+		// the implementation refuses to run this node object again (nothing was called): whether a
+		// node may be run twice is not C06's clause
+		return ok(false, "second-run-refused")
+	}
 	v := judgeC06(eff, x, br, fail)
 	if v.Violation != "" {
 		v.Violation = fmt.Sprintf("second run of the same node object (first run: %d items, this run: %d): %s", sc.n(), eff.n(), v.Violation)
